@@ -75,7 +75,7 @@ inline CI ci_div(const CI& a, const CI& b) {
 
 // ------------------------------------------------------------------------------------------------
 // abstract syntax
-enum Kind { K_NUM, K_ITV, K_PI, K_INF, K_SYM, K_NEG, K_ADD, K_SUB, K_MUL, K_DIV, K_POW, K_TRANS, K_CALL, K_IDX, K_ROW, K_COL, K_SUM,
+enum Kind { K_NUM, K_ITV, K_BALL, K_PI, K_INF, K_SYM, K_NEG, K_ADD, K_SUB, K_MUL, K_DIV, K_POW, K_TRANS, K_CALL, K_IDX, K_ROW, K_COL, K_SUM,
             K_IDXALL, K_IDXONE, K_IDXRANGE };
 struct E; typedef std::shared_ptr<E> EP;
 struct E {
@@ -269,7 +269,7 @@ struct Parser {
       err("expected ) , or ;");
     }
     if (isch("[")) { p++; EP a = expr(); expectch(","); EP b = expr(); expectch("]"); return mk(K_ITV, {a, b}); }
-    if (isch("<")) throw Unsupported{"ball constant <c,r>"};
+    if (isch("<")) { p++; EP c = expr(); expectch(","); EP rr = expr(); expectch(">"); return mk(K_BALL, {c, rr}); }     // ball constant <centre,radius>
     err("expression expected");
   }
 
@@ -683,6 +683,16 @@ struct Denoter {
         double lo = x.inf ? (x.inf > 0 ? INFINITY : -INFINITY) : x.lo, hi = y.inf ? (y.inf > 0 ? INFINITY : -INFINITY) : y.hi;
         if (!(lo <= hi)) throw Unsupported{"interval with crossed bounds (the empty set)"};
         return cscalar(CI(lo, hi));
+      }
+      case K_BALL: { // <c,r> = c + [-R,R] in outward-rounded interval arithmetic, R = upper bound of the radius (both evaluated while the text is read)
+        parse_time++; Val c, rr; try { c = eval(e->a[0]); rr = eval(e->a[1]); } catch (...) { parse_time--; throw; } parse_time--;
+        if (!c.isconst || !rr.isconst) throw Reject{"constant expected in a ball constant"};
+        if (!rr.scalar()) throw Reject{"scalar radius expected"};
+        const CI& R = rr.cst[0]; if (R.inf || R.empty || std::isinf(R.hi)) throw Unsupported{"infinite or empty radius"};
+        if (R.hi < 0) throw Unsupported{"negative radius"};
+        nofinf(c);
+        std::vector<CI> d; for (auto& x : c.cst) { if (x.empty) throw Unsupported{"empty centre"}; d.push_back(ci_add(x, CI(-R.hi, R.hi))); }
+        return cval(c.r, c.c, d);
       }
       case K_SYM: {
         Sym* s = find(e->name); if (!s) throw Reject{"unknown symbol " + e->name};
